@@ -26,7 +26,7 @@ func (f *frame) invEnv(li *loopInfo, st State, override map[string]Val) *specEnv
 	if f.spec != nil {
 		for i, n := range f.spec.Params {
 			if i < len(f.params) {
-				env.vars[n] = f.params[i]
+				env.setParam(n, f.params[i])
 			}
 		}
 	}
